@@ -630,7 +630,9 @@ class World:
         warnings.simplefilter("ignore")
         np.seterr(all="ignore")
         try:
-            for seg in self.sc["steps"]:
+            for iseg, seg in enumerate(self.sc["steps"]):
+                if iseg:
+                    self._user_edits(iseg)
                 self._run_segment(seg)
                 if self.aborted:
                     break
@@ -642,6 +644,28 @@ class World:
             self._escaped(exc, "outside-trial")
         self.result.digest = self.digest.hex()
         return self.result
+
+    def _user_edits(self, iseg):
+        """What a user may do between two run calls: edit the structure through ASE and (re)set constraints."""
+        for ed in self.sc.get("edits", []):
+            if ed.get("before_segment") != iseg:
+                continue
+            if ed.get("shift") is not None and len(self.atoms):
+                sh = np.array(ed["shift"], dtype=float)
+                pos = self.atoms.positions.copy()
+                rows = ed.get("rows")
+                if rows is None:
+                    pos += sh
+                else:
+                    pos[[r for r in rows if r < len(pos)]] += sh
+                self.atoms.positions = pos
+            if "constraints" in ed:
+                spec = dict(self.sc["atoms"], constraints=ed["constraints"])
+                self.atoms.set_constraint(build_atoms(spec).constraints if ed["constraints"] else None)
+                self.sc_constraints_now = ed["constraints"]
+            self.result.count("fault.user_edit_between_runs")
+            for m in self.monitors:
+                m.on_user_edit(self, ed)
 
     def _escaped(self, exc, phase):
         info = classify_exception(exc)
@@ -867,6 +891,7 @@ class Monitor:
     def on_trial(self, w, name, verdict, pre, post): ...
     def on_step_end(self, w): ...
     def on_segment_end(self, w): ...
+    def on_user_edit(self, w, ed): ...
     def on_end(self, w): ...
 
     def on_exception(self, w, info) -> bool:
